@@ -411,6 +411,29 @@ fn query_reference_battery(log: &mut Vec<String>) {
 
 /// Removal keeps the order of what remains (collections are *ordered* sets; fragment-only queries return the first match): three
 /// entries, the later two sharing a fragment under different DIDs, then the first is removed / detached.
+/// A string query that looks like a DID URL (starts with the scheme) has a DID part, well-formed or not: it matches only entries of
+/// exactly that DID - never by fragment alone.
+fn kid_did_part_battery(log: &mut Vec<String>) {
+  let did = "did:example:doc";
+  let mk = |d: &str, f: &str| VerificationMethod::new_from_jwk(CoreDID::parse(d).unwrap(), method_key(d, f), Some(f)).unwrap();
+  let mut d = CoreDocument::builder(Object::new()).id(CoreDID::parse(did).unwrap()).build().unwrap();
+  d.insert_method(mk(did, "#key"), MethodScope::VerificationMethod).unwrap();
+  d.insert_method(mk(did, "#auth"), MethodScope::authentication()).unwrap();
+  for frag in ["key", "auth"] {
+    for q in [format!("did:Example:doc#{frag}"), format!("did:example:#{frag}"), format!("did::#{frag}"), format!("did:example:other#{frag}"), format!("did:#{frag}"),
+              format!("did:EXAMPLE:DOC#{frag}"), format!("did:example:doc%#{frag}"), format!("did:ex ample:doc#{frag}")] {
+      if let Some(m) = d.resolve_method(q.as_str(), None) {
+        log.push(format!("[kid-did-part] query {q:?} resolves to {}", m.id()));
+      }
+    }
+    for q in [format!("did:example:doc#{frag}"), format!("#{frag}"), frag.to_owned()] {
+      if d.resolve_method(q.as_str(), None).map(|m| m.id().to_string()) != Some(format!("{did}#{frag}")) {
+        log.push(format!("[kid-did-part] query {q:?} does not resolve to {did}#{frag}"));
+      }
+    }
+  }
+}
+
 fn order_battery(log: &mut Vec<String>) {
   let did = "did:example:doc";
   let mk = |d: &str, f: &str| VerificationMethod::new_from_jwk(CoreDID::parse(d).unwrap(), method_key(d, f), Some(f)).unwrap();
@@ -495,6 +518,7 @@ pub fn document_ops(cex: &Value) -> Result<String, String> {
     case_variant_battery(&mut log);
     query_reference_battery(&mut log);
     order_battery(&mut log);
+    kid_did_part_battery(&mut log);
     for (n_ids, n_rels, depth, prefix) in universes {
     let mut ops = Vec::new();
     for i in 0..n_ids {
